@@ -38,11 +38,13 @@ def build(prog, spec):
         if kind == "J":
             n.f["junction"] = default_obj(prog, "Avoid::JunctionRef", {"m_position": P(prog, *pt)})
             n.f["junction"].f["_name"] = "J:" + nm
-        if kind in ("T", "S"):
+        if kind in ("T", "S", "D"):
             n.f["finalVertex"] = default_obj(prog, "Avoid::VertInf", {"point": P(prog, *pt)})
             n.f["finalVertex"].f["_name"] = "T:" + nm
         if kind == "S":
             n.f["isConnectorSource"] = True
+        if kind == "D":
+            n.f["isPinDummyEndpoint"] = True        # the dummy end-point vertex behind a connection pin
         nodes[nm] = n
     edges = []
     for a, b in spec["edges"]:
@@ -168,6 +170,12 @@ def check_tree(prog, spec, root, old_conns_know_terminals=True):
                 "-".join(path), ends.get(2), want_tar)
         rt = [(p_.f["x"], p_.f["y"]) for p_ in c.f["m_display_route"].f["ps"].items]
         want_rt = [tuple(Fraction(v) for v in pt[n_]) for n_ in path]
+        if kind[path[-1]] == "D":
+            # the dummy vertex behind a pin is not part of the route; the route ends at the pin position (the node before it),
+            # whether or not pin and dummy coincide
+            want_rt = want_rt[:-1]
+            while len(want_rt) > 1 and want_rt[-1] == want_rt[-2]:
+                want_rt.pop()
         if rt != want_rt and rt != want_rt[::-1]:
             return "connector for path %s: written route %s, expected the points of the path %s (in either direction)" % (
                 "-".join(path), [(str(a), str(b)) for a, b in rt], [(str(a), str(b)) for a, b in want_rt])
@@ -190,6 +198,12 @@ HAND = [
                                    "edges": [("J", "n"), ("n", "a"), ("J", "K"), ("K", "b"), ("K", "c"), ("J", "d")]}, "J"),
     ("degree-2 junction", {"nodes": {"J": ("J", (0, 0)), "a": ("T", (10, 0)), "b": ("T", (0, 10)), "K": ("J", (-10, 0)), "c": ("T", (-20, 0))},
                            "edges": [("J", "a"), ("J", "b"), ("J", "K"), ("K", "c")]}, "J"),
+    ("centre pin terminal (pin and dummy vertex coincide)",
+     {"nodes": {"J": ("J", (0, 0)), "x": ("N", (6, 0)), "p": ("N", (10, 0)), "t": ("D", (10, 0)), "b": ("T", (0, 9)), "c": ("S", (-9, 0))},
+      "edges": [("J", "x"), ("x", "p"), ("p", "t"), ("J", "b"), ("J", "c")]}, "J"),
+    ("border pin terminal (dummy vertex at the shape centre)",
+     {"nodes": {"J": ("J", (0, 0)), "p": ("N", (10, 0)), "t": ("D", (14, 0)), "b": ("T", (0, 9)), "c": ("S", (-9, 0))},
+      "edges": [("J", "p"), ("p", "t"), ("J", "b"), ("J", "c")]}, "J"),
     ("long bends", {"nodes": {"J": ("J", (0, 0)), "p": ("N", (3, 0)), "q": ("N", (3, 3)), "a": ("T", (6, 3)), "b": ("T", (0, 9)), "c": ("S", (-9, 0))},
                     "edges": [("J", "p"), ("p", "q"), ("q", "a"), ("J", "b"), ("J", "c")]}, "J"),
 ]
